@@ -93,3 +93,21 @@ package ipfsproxy
 //@   ensures [rest-of-query-kept] forall k string :: k != "arg" ==> (haskey(q, k) <==> haskey(libfn("url.URL.Query", 0, old(r.URL)), k)) && q[k] == libfn("url.URL.Query", 0, old(r.URL))[k]
 //@   ensures [query-rewritten] r.URL.RawQuery == libfn("url.Values.Encode", 0, q)
 //@   modifies served, httpResponses, httpLastStatus, rpcN, rpcOK, rpcLastSvc, rpcLastMethod, rpcLastArg, addN, heap(url.URL)
+
+// ---- "a hijacked request never reaches the daemon as the mutating call it replaces" ----
+// the only requests the hijack path itself sends to the daemon: an OPTIONS pre-flight to the same path
+// (CORS headers) and a POST to the configured header-extraction path (default /api/v0/version)
+//@ extern fmt.Sprintf(format, a)
+//@   ensures format == "%s%s" && len(a) == 2 ==> res == uf("concat2", "string", a[0], a[1])
+//@ extern http.NewRequest(method, url, body)
+//@   modifies nothing
+
+//@ func (proxy *Server) setCORSHeaders
+//@   property C12
+//@   at_call http.NewRequest assert [preflight-only] method == "OPTIONS"
+//@   modifies *
+
+//@ func (proxy *Server) setAdditionalIpfsHeaders
+//@   property C12
+//@   at_call http.NewRequest assert [only-the-extraction-path] url == uf("concat2", "string", any(proxy.nodeAddr), any(proxy.config.ExtractHeadersPath))
+//@   modifies *
